@@ -27,6 +27,7 @@ const (
 	Premium Tier = "premium"
 	Deluxe  Tier = "de'luxe" // an apostrophe is a legal character of a string constant
 	Legacy  Tier = "old\\school" // and so is a backslash
+	Fan     Tier = "Badge"        // spelled like a table struct of the file
 )
 
 type Dimensions struct {
